@@ -619,7 +619,7 @@ def _st_transport(flavours: list[str]):  # type: ignore[no-untyped-def]
 # (listed in known_findings.json; the committed replay replays/C20-writelines-3121.json carries "known_finding_probe": true, which
 # bypasses the exclusion so that every run re-observes the finding and prints its KNOWN-FINDING line).  Generated cases exclude the shape
 # by construction so that the search continues past it.
-EXCLUDE_WRITELINES_STDLIB = True
+EXCLUDE_WRITELINES_STDLIB = False  # repaired in /repo: the adapter no longer uses writelines(); the shape is searched again
 
 
 def run_real(case: dict) -> Outcome:
